@@ -193,11 +193,27 @@ def u_roundtrip(W, sk):
                 elif key in (g.index.names or []):
                     g = g.reset_index(level=key, drop=True)
         steps.append("single-item dimensions left out")
-    if rng.random() < 0.4:
+    if not sparse and not isinstance(g.index, pd.MultiIndex) and g.index.name is not None and rng.random() < 0.5:
+        # a single dimension held in an index without a name: recognised through its items
+        g.index = g.index.rename(None)
+        steps.append("index name removed")
+    if layout == "long_columns" and style == "names" and "columns permuted" not in steps and "single-item dimensions left out" not in steps and "value column renamed" not in steps and rng.random() < 0.25:
+        # a CSV file without a header line, read as if it had one: the first data row ends up as column names
         d_ = tempfile.mkdtemp(prefix="fvc_csv_")
         try:
             path = os.path.join(d_, "x.csv")
-            named_index = list(g.index.names) != [None]
+            g.to_csv(path, index=False, header=False)
+            g = pd.read_csv(path, float_precision="round_trip")
+        finally:
+            import shutil
+
+            shutil.rmtree(d_, ignore_errors=True)
+        steps.append("CSV without header line")
+    elif rng.random() < 0.4:
+        d_ = tempfile.mkdtemp(prefix="fvc_csv_")
+        try:
+            path = os.path.join(d_, "x.csv")
+            named_index = list(g.index.names) != [None] or "index name removed" in steps
             g.to_csv(path, index=named_index)
             g = pd.read_csv(path, float_precision="round_trip")
         finally:
